@@ -2,6 +2,7 @@ package graph
 
 import (
 	"fmt"
+	"slices"
 	"sort"
 
 	"k8s.io/apimachinery/pkg/runtime/schema"
@@ -367,76 +368,79 @@ func buildHostPortPaths(route *L7Route, listenerPorts map[string]v1.PortNumber) 
 // markConflictedPolicies marks policies that conflict with a policy of greater precedence as invalid.
 // Policies are sorted by timestamp and then alphabetically.
 func markConflictedPolicies(pols map[PolicyKey]*Policy, validator validation.PolicyValidator) {
-	// Policies can only conflict if they are the same policy type (gvk) and they target the same resource(s).
-	type key struct {
-		policyGVK schema.GroupVersionKind
-		PolicyTargetRef
+	type candidate struct {
+		policy *Policy
+		gvk    schema.GroupVersionKind
 	}
 
-	possibles := make(map[key][]*Policy)
-
+	// If a policy is invalid, it cannot conflict with another policy.
+	candidates := make([]candidate, 0, len(pols))
 	for policyKey, policy := range pols {
-		// If a policy is invalid, it cannot conflict with another policy.
 		if policy.Valid {
-			for _, ref := range policy.TargetRefs {
-				ak := key{
-					PolicyTargetRef: ref,
-					policyGVK:       policyKey.GVK,
-				}
-				if possibles[ak] == nil {
-					possibles[ak] = make([]*Policy, 0)
-				}
-				possibles[ak] = append(possibles[ak], policy)
-			}
+			candidates = append(candidates, candidate{policy: policy, gvk: policyKey.GVK})
 		}
 	}
 
-	for _, policyList := range possibles {
-		if len(policyList) == 1 {
-			// if the policyList only has one entry, then we don't need to check for conflicts.
+	// We sort all the policies according to the rules in the spec. This will put them in priority-order.
+	// One order for all the policies (rather than one per target) makes the result independent of the order in which
+	// the targets are visited: a policy with several targets can lose on one of them, and whether it is still valid
+	// decides if it takes precedence over the policies of its other targets.
+	sort.Slice(
+		candidates, func(i, j int) bool {
+			return ngfsort.LessClientObject(candidates[i].policy.Source, candidates[j].policy.Source)
+		},
+	)
+
+	// Policies can only conflict if they are the same policy type (gvk) and they target the same resource(s).
+	canConflict := func(c1, c2 candidate) bool {
+		if c1.gvk != c2.gvk {
+			return false
+		}
+
+		for _, ref := range c1.policy.TargetRefs {
+			if slices.Contains(c2.policy.TargetRefs, ref) {
+				return true
+			}
+		}
+
+		return false
+	}
+
+	// We range over the policies, starting with the highest priority policy.
+	for i := range candidates {
+		if !candidates[i].policy.Valid {
+			// Ignore policy that has already been marked as invalid.
 			continue
 		}
 
-		// First, we sort the policyList according to the rules in the spec.
-		// This will put them in priority-order.
-		sort.Slice(
-			policyList, func(i, j int) bool {
-				return ngfsort.LessClientObject(policyList[i].Source, policyList[j].Source)
-			},
-		)
-
-		// Second, we range over the policyList, starting with the highest priority policy.
-		for i := range policyList {
-			if !policyList[i].Valid {
+		// Next, we compare the ith policy to the policies that follow it.
+		// The ith policy takes precedence over polices that follow it, so if there is a conflict between
+		// it and a subsequent policy, the ith policy wins, and we mark the subsequent policy as invalid.
+		// Example: [A, B, C] where B conflicts with A.
+		// i=A, j=B => conflict, B's marked as invalid.
+		// i=A, j=C => no conflict.
+		// i=B, j=C => B's already invalid, so we hit the continue.
+		// i=C => j loop terminates.
+		// Results: A, and C are valid. B is invalid.
+		for j := i + 1; j < len(candidates); j++ {
+			if !candidates[j].policy.Valid {
 				// Ignore policy that has already been marked as invalid.
 				continue
 			}
 
-			// Next, we compare the ith policy (policyList[i]) to the rest of the policies in the list.
-			// The ith policy takes precedence over polices that follow it, so if there is a conflict between
-			// it and a subsequent policy, the ith policy wins, and we mark the subsequent policy as invalid.
-			// Example: policyList = [A, B, C] where B conflicts with A.
-			// i=A, j=B => conflict, B's marked as invalid.
-			// i=A, j=C => no conflict.
-			// i=B, j=C => B's already invalid, so we hit the continue.
-			// i=C => j loop terminates.
-			// Results: A, and C are valid. B is invalid.
-			for j := i + 1; j < len(policyList); j++ {
-				if !policyList[j].Valid {
-					// Ignore policy that has already been marked as invalid.
-					continue
-				}
+			if !canConflict(candidates[i], candidates[j]) {
+				continue
+			}
 
-				if validator.Conflicts(policyList[i].Source, policyList[j].Source) {
-					conflicted := policyList[j]
-					conflicted.Valid = false
-					conflicted.Conditions = append(conflicted.Conditions, staticConds.NewPolicyConflicted(
-						fmt.Sprintf(
-							"Conflicts with another %s",
-							conflicted.Source.GetObjectKind().GroupVersionKind().Kind,
-						),
-					))
-				}
+			if validator.Conflicts(candidates[i].policy.Source, candidates[j].policy.Source) {
+				conflicted := candidates[j].policy
+				conflicted.Valid = false
+				conflicted.Conditions = append(conflicted.Conditions, staticConds.NewPolicyConflicted(
+					fmt.Sprintf(
+						"Conflicts with another %s",
+						conflicted.Source.GetObjectKind().GroupVersionKind().Kind,
+					),
+				))
 			}
 		}
 	}
